@@ -285,3 +285,82 @@ Theorem C09_model_is_source_predict_conditional_variance : forall orc t scr,
   src_sp_predict_conditional_variance t (pydata_of scr) = theta_predict orc KVar (TS t) scr.
 Proof. exact src_sp_predict_conditional_variance_is_model. Qed.
 Print Assumptions C09_model_is_source_predict_conditional_variance.
+
+(* the methods of SparseDrugComboInteractionMCMCSample (models/sparse_combo_interaction.py): the arity guard (ValueError),
+   the gathered interaction, the single-effect comprehension over zip(sample_ids, column 0, column 1) with its KeyError,
+   exp / log / both clips, the variance *)
+Theorem C09_model_is_source_inter_predict_conditional_mean : forall orc t scr, scr_okb scr = true ->
+  src_in_predict_conditional_mean t (pydata_of scr) = theta_predict orc KMean (TI t) scr.
+Proof. exact src_in_predict_conditional_mean_is_model. Qed.
+Print Assumptions C09_model_is_source_inter_predict_conditional_mean.
+
+Theorem C09_model_is_source_inter_predict_viability : forall orc t scr, scr_okb scr = true ->
+  src_in_predict_viability orc t (pydata_of scr) = theta_predict orc KViab (TI t) scr.
+Proof. exact src_in_predict_viability_is_model. Qed.
+Print Assumptions C09_model_is_source_inter_predict_viability.
+
+Theorem C09_model_is_source_inter_predict_conditional_variance : forall orc t scr,
+  src_in_predict_conditional_variance t (pydata_of scr) = theta_predict orc KVar (TI t) scr.
+Proof. exact src_in_predict_conditional_variance_is_model. Qed.
+Print Assumptions C09_model_is_source_inter_predict_conditional_variance.
+
+(* hence the model's Theta interface IS the six translated methods ([py_theta_predict]: the dispatch on the sample's
+   class and the method name) *)
+Theorem C09_model_is_source_theta_predict : forall orc k t scr, scr_okb scr = true ->
+  py_theta_predict orc k t (pydata_of scr) = theta_predict orc k t scr.
+Proof. exact py_theta_predict_is_model. Qed.
+Print Assumptions C09_model_is_source_theta_predict.
+
+(* models/main.py.  The translations take the three Theta methods as a parameter pm (kind -> sample -> data -> result):
+   for ANY implementation that agrees with the model on the samples the holder stores ... *)
+Theorem C09_model_is_source_predict_viability_all : forall orc pm scr h,
+  (forall t, In t (h_thetas h) -> pm KViab t (pydata_of scr) = theta_predict orc KViab t scr) ->
+  src_predict_viability_all pm (pydata_of scr) h = predict_all orc KViab h scr.
+Proof. exact src_predict_viability_all_is_model. Qed.
+Print Assumptions C09_model_is_source_predict_viability_all.
+
+Theorem C09_model_is_source_predict_mean_all : forall orc pm scr h,
+  (forall t, In t (h_thetas h) -> pm KMean t (pydata_of scr) = theta_predict orc KMean t scr) ->
+  src_predict_mean_all pm (pydata_of scr) h = predict_all orc KMean h scr.
+Proof. exact src_predict_mean_all_is_model. Qed.
+Print Assumptions C09_model_is_source_predict_mean_all.
+
+Theorem C09_model_is_source_predict_variance_all : forall orc pm scr h,
+  (forall t, In t (h_thetas h) -> pm KVar t (pydata_of scr) = theta_predict orc KVar t scr) ->
+  src_predict_variance_all pm (pydata_of scr) h = predict_all orc KVar h scr.
+Proof. exact src_predict_variance_all_is_model. Qed.
+Print Assumptions C09_model_is_source_predict_variance_all.
+
+Theorem C09_model_is_source_predict_mean_avg : forall orc pm scr h,
+  (forall t, In t (h_thetas h) -> pm KMean t (pydata_of scr) = theta_predict orc KMean t scr) ->
+  src_predict_mean_avg pm (pydata_of scr) h = predict_avg orc KMean h scr.
+Proof. exact src_predict_mean_avg_is_model. Qed.
+Print Assumptions C09_model_is_source_predict_mean_avg.
+
+Theorem C09_model_is_source_predict_viability_avg : forall orc pm scr h,
+  (forall t, In t (h_thetas h) -> pm KViab t (pydata_of scr) = theta_predict orc KViab t scr) ->
+  src_predict_viability_avg pm (pydata_of scr) h = predict_avg orc KViab h scr.
+Proof. exact src_predict_viability_avg_is_model. Qed.
+Print Assumptions C09_model_is_source_predict_viability_avg.
+
+(* ... in particular for the translated methods themselves: no hypothesis about the methods is left *)
+Theorem C09_model_is_source_main : forall orc scr h, scr_okb scr = true ->
+  src_predict_viability_all (py_theta_predict orc) (pydata_of scr) h = predict_all orc KViab h scr /\
+  src_predict_mean_all (py_theta_predict orc) (pydata_of scr) h = predict_all orc KMean h scr /\
+  src_predict_variance_all (py_theta_predict orc) (pydata_of scr) h = predict_all orc KVar h scr /\
+  src_predict_mean_avg (py_theta_predict orc) (pydata_of scr) h = predict_avg orc KMean h scr /\
+  src_predict_viability_avg (py_theta_predict orc) (pydata_of scr) h = predict_avg orc KViab h scr.
+Proof. exact src_main_is_model. Qed.
+Print Assumptions C09_model_is_source_main.
+
+(* non-vacuity of the links: the translated functions computed on the example screens *)
+Example C09_ex_source :
+  qs (src_predict toy_orc ex_sparse (pydata_of (Scr2 ex_rows)) false)
+  = Ok [7 # 4; 5 # 2; 23 # 4; 143 # 4; 143 # 4; 81 # 2]%Q /\
+  qs (src_in_predict_viability toy_orc ex_inter (pydata_of (Scr2 ex_rows)))
+  = Ok [1 # 2; 99 # 100; 99 # 100; 99 # 100; 99 # 100; 99 # 100]%Q /\
+  (let h := {| h_n := 2; h_thetas := [TI ex_inter; TS ex_sparse] |} in
+   qs (src_predict_mean_avg (py_theta_predict toy_orc) (pydata_of (Scr2 [(0, 0, -1); (0, 0, 1)]%Z)) h) = Ok [7 # 8; 181 # 8]%Q) /\
+  src_predict toy_orc ex_sparse (pydata_of (Scr2 [(0, 2, 0)]%Z)) false = Err ERR_INDEX /\
+  scr_okb (Scr2 ex_rows) = true /\ scr_okb (ScrN 3 1) = true.
+Proof. vm_compute. repeat split; reflexivity. Qed.
